@@ -28,6 +28,24 @@ Definition apply_op (c : cfg) (m : mesh row) (o : cop) : option (mesh row) :=
   | Facets f => Some (to_facets m f)
   end.
 
+(* edits through the public update API before the extraction:
+   nodes.update(ids, xyz, allow_overwrite=True) and
+   nodal_data.update_data(ids, {name: rows}, allow_overwrite=True); both are
+   C08's Update = combine_first on the table concerned *)
+Inductive edit :=
+| EditNodes (new : table row)
+| EditNodal (k : nat) (new : table row).
+
+Definition apply_edit (m : mesh row) (e : edit) : mesh row :=
+  match e with
+  | EditNodes new => {| nodes := combine_first new (nodes m); elems := elems m; nodal := nodal m;
+                        elemental := elemental m |}
+  | EditNodal k new =>
+      {| nodes := nodes m; elems := elems m;
+         nodal := map (fun nv => if Nat.eqb (fst nv) k then (k, combine_first new (snd nv)) else nv) (nodal m);
+         elemental := elemental m |}
+  end.
+
 Definition blocks_eqb := list_eqb' block_eqb.
 Definition nodal_eqb := list_eqb' (fun a b : nat * table row => Nat.eqb (fst a) (fst b) && table_eqb (snd a) (snd b)).
 Definition elemental_eqb :=
@@ -37,7 +55,8 @@ Definition elemental_eqb :=
    its elements (ids, types, connectivity in summary order) *)
 Record mobs := { ob_mesh : mesh row; ob_ids : list Z; ob_types : list nat; ob_data : list row }.
 
-Definition check (c : cfg) (m : mesh row) (o : cop) (ob : option mobs) : list nat :=
+Definition check (c : cfg) (m0 : mesh row) (pre : list edit) (o : cop) (ob : option mobs) : list nat :=
+  let m := fold_left apply_edit pre m0 in
   if negb (wf_mesh m) then [99%nat] else
   match apply_op c m o, ob with
   | None, None => []
